@@ -25,6 +25,7 @@ inductive Val
   | str (s : String)
   | cat (s : String) (lv : List String)     -- coba.primitives.Categorical (a str carrying its levels)
   | tup (l : List Int)                       -- a one-hot tuple
+  | flt (i : Int)                            -- an integer-valued float (`float('7')`): equal to the int, printed `7.0`
   deriving DecidableEq, Repr, Inhabited
 
 /-- dictionary key / row key: an int position or a str name -/
@@ -74,6 +75,9 @@ def pyEq : Val → Val → Bool
   | .cat a _, .str b => a == b
   | .cat a _, .cat b _ => a == b
   | .tup a, .tup b => a == b
+  | .flt a, .flt b => a == b
+  | .flt a, .int b => a == b
+  | .int a, .flt b => a == b
   | _, _ => false
 
 /-! ## encoders -/
@@ -110,22 +114,27 @@ def Enc.apply : Enc → Val → Res Val
   | .toInt, .int i => .ok (.int i)
   | .toInt, .str s => match parseInt s with | some i => .ok (.int i) | none => .error .valueError
   | .toInt, .cat s _ => match parseInt s with | some i => .ok (.int i) | none => .error .valueError
+  | .toInt, .flt i => .ok (.int i)
   | .toInt, _ => .error .typeError
   | .toStr, .int i => .ok (.str (toString i))
   | .toStr, .str s => .ok (.str s)
   | .toStr, .cat s _ => .ok (.str s)
   | .toStr, .none => .ok (.str "None")
   | .toStr, .tup _ => .error .typeError          -- repr of a tuple: not modelled, never generated
+  | .toStr, .flt i => .ok (.str (toString i ++ ".0"))
   | .inc, .int i => .ok (.int (i + 1))
+  | .inc, .flt i => .ok (.flt (i + 1))
   | .inc, _ => .error .typeError
   | .dbl, .int i => .ok (.int (2 * i))
   | .dbl, .str s => .ok (.str (s ++ s))
   | .dbl, .cat s _ => .ok (.str (s ++ s))
   | .dbl, .tup l => .ok (.tup (l ++ l))
+  | .dbl, .flt i => .ok (.flt (2 * i))
   | .dbl, .none => .error .typeError
-  | .anum, .int i => .ok (.int i)
-  | .anum, .str s => match parseInt s with | some i => .ok (.int i) | none => .error .valueError
-  | .anum, .cat s _ => match parseInt s with | some i => .ok (.int i) | none => .error .valueError
+  | .anum, .int i => .ok (.flt i)
+  | .anum, .flt i => .ok (.flt i)
+  | .anum, .str s => match parseInt s with | some i => .ok (.flt i) | none => .error .valueError
+  | .anum, .cat s _ => match parseInt s with | some i => .ok (.flt i) | none => .error .valueError
   | .anum, _ => .error .typeError
   | .astr, v => if pyEq v (.str "?") then .ok .none else .ok v
   | .acat lv, v =>
